@@ -230,6 +230,9 @@ class ANOVA:
         with open(fpath, 'rb') as f:
             data = pickle.load(f)
 
+        self.__dict__.pop('_f1_arr', None)
+        self.__dict__.pop('_f2_arr', None)
+
         self.order = data['order']
         self.dtype = data['dtype']
         self.y_max = data['y_max']
